@@ -97,7 +97,7 @@ func c15PartBytes(x *c15Ctx, env *c15Env, dl time.Time) {
 	p := x.c.Part("bytes")
 	bases := c15AllBaselines(env, x.c.Thorough())
 	sort.SliceStable(bases, func(i, j int) bool { return len(bases[i].Data) < len(bases[j].Data) }) // simplest first
-	p.Bound("byte_menu", "every truncation length; every position := 0x00, 0xff, +1")
+	p.Bound("byte_menu", "every truncation length; every position := 0x00, 0xff, +1; at every position each of 9 boundary length encodings written over the following bytes (compact-size fd/fe/ff, protobuf varint 2^63 and 2^64-1; quick tier: baselines up to 768 bytes)")
 	p.Bound("quick_tier_omits", "cross-type RLP feeding; byte-set deviations of RLP baselines above 1 KiB (truncations kept); share views other than Scrypt and node-head; block views other than node-head; prefork header view; response/blocks frame; wo/block into the HeaderObject/PEtxObject/BlockObjects decoders (all covered by thorough; the struct part still visits every baseline with k=1)")
 	p.Bound("baselines", len(bases))
 	nEntries := map[string]bool{}
@@ -130,7 +130,7 @@ func c15PartBytes(x *c15Ctx, env *c15Env, dl time.Time) {
 				}
 			}
 			stop := false
-			c15ByteMuts(b.Data, func(m c15ByteMut, in []byte) bool {
+			c15ByteMutsOpt(b.Data, x.c.Thorough() || len(b.Data) <= c15SpanLimit, func(m c15ByteMut, in []byte) bool {
 				if !x.c.Thorough() && m.Kind == "set" && len(b.Data) > 1024 && len(b.Kind) > 4 && b.Kind[:4] == "rlp-" {
 					return true
 				}
@@ -282,7 +282,7 @@ func c15PartText(x *c15Ctx, env *c15Env, dl time.Time) {
 				}
 			}
 			stop := false
-			c15ByteMuts(b.Data, func(m c15ByteMut, in []byte) bool {
+			c15ByteMutsOpt(b.Data, false, func(m c15ByteMut, in []byte) bool {
 				total++
 				if !x.mine() {
 					return true
@@ -486,7 +486,7 @@ func c15PartRawdb(x *c15Ctx, env *c15Env, dl time.Time) {
 			if quickBlock2 {
 				continue // quick: per-block readers on block 1 only
 			}
-			c15ByteMuts(val, func(m c15ByteMut, in []byte) bool {
+			c15ByteMutsOpt(val, x.c.Thorough() || len(val) <= c15SpanLimit, func(m c15ByteMut, in []byte) bool {
 				if !x.c.Thorough() && m.Kind == "set" && len(val) > 1024 {
 					return true // quick: values above 1 KiB get every truncation only
 				}
